@@ -15,4 +15,58 @@ def build():
         r matches Ok(d) ==> dur(d) == (if self.inner_cert.not_after.t@ > crate::openssl::asn1::wall_now() {
                 (self.inner_cert.not_after.t@ - crate::openssl::asn1::wall_now()) as nat } else { 0nat }) * 1_000_000_000, //@C06.expires_in_exact_and_non_negative
 """)})
+    u.raw("crypto", SAN_SPEC)
+    u.raw("crypto", SAN_TRUSTED, trusted=True)
+
+    def chain(m):
+        # both closures keep their real bodies; what the set that comes out relies on is stated as their ensures clauses
+        f = f"|{m.group('fp')}: &&GeneralName| -> (b__: bool)\n    ensures b__ == (({m.group('fp')}).dns@ is Some || ({m.group('fp')}).ip@ is Some) //@C06.san_names_are_every_dns_and_ip_entry_as_text\n {{ {m.group('fb')} }}"
+        g = f"|{m.group('gp')}: &GeneralName| -> (s__: String)\n    ensures s__@ == san_text(*{m.group('gp')}) //@C06.san_names_are_every_dns_and_ip_entry_as_text\n {{ {m.group('gb')} }}"
+        return f"crate::crypto::filter_map_to_set(&{m.group('s')}.v, {f}, {g})"
+    u.verify(X, "X509Certificate::subject_alt_names", "crypto", props=["C06"], fns={"subject_alt_names": FnSpec(ret="r",
+        body_start="broadcast use {crate::axiom_ip_to_string, vstd::string::to_string_from_display_ensures_for_str};", sig="""
+    ensures
+        // every dNSName and every iPAddress entry of the subjectAltName extension, as text (an address in its canonical form) - and nothing else
+        forall|x: Seq<char>| strset(r).contains(x) <==> (self.inner_cert.san@ matches Some(s)
+            && exists|i: int| 0 <= i < s.len() && ((#[trigger] s[i]).dns@ is Some || s[i].ip@ is Some) && san_text(s[i]) == x), //@C06.san_names_are_every_dns_and_ip_entry_as_text
+""", rewrites=[
+        ("T-ITER", r"(?s)\b(?P<s>\w+)\s*\.iter\(\)\s*\.filter\(\|(?P<fp>\w+)\|\s*(?P<fb>[^{}]*?)\)\s*\.map\(\|(?P<gp>\w+)\|\s*(?P<gb>match .*\})\s*\)\s*\.collect\(\)", chain, 1),
+        ("T-ITER", r"HashSet::new\(\)", "crate::crypto::empty_string_set()", None),
+    ])})
     return u
+
+
+SAN_SPEC = """
+use crate::openssl::x509::GeneralName;
+use std::collections::HashSet;
+use std::net::IpAddr;
+pub open spec fn san_text(g: GeneralName) -> Seq<char> {
+    match g.dns@ {
+        Some(d) => d,
+        None => match g.ip@ {
+            Some(i) => if i.len() == 4 || i.len() == 16 { crate::ip_text(crate::ip_from_octets(i)) } else { Seq::<char>::empty() },
+            None => Seq::<char>::empty(),
+        },
+    }
+}
+"""
+
+SAN_TRUSTED = """
+// the set of texts a HashSet<String> holds
+pub uninterp spec fn strset(h: HashSet<String>) -> Set<Seq<char>>;
+#[verifier::external_body]
+pub fn empty_string_set() -> (r: HashSet<String>) ensures strset(r) == Set::<Seq<char>>::empty() { unimplemented!() }
+// V.iter().filter(F).map(G).collect() into a HashSet<String>   (rule T-ITER): F is asked about every element (fm_kept .. [i] is
+// its answer), G is applied to the kept ones (fm_imgs .. [i] is what it gave), the set holds the texts of those
+pub uninterp spec fn fm_kept<T>(v: Seq<T>, r: HashSet<String>) -> Seq<bool>;
+pub uninterp spec fn fm_imgs<T>(v: Seq<T>, r: HashSet<String>) -> Seq<String>;
+#[verifier::external_body]
+pub fn filter_map_to_set<T, F: Fn(&&T) -> bool, G: Fn(&T) -> String>(v: &Vec<T>, f: F, g: G) -> (r: HashSet<String>)
+    requires forall|i: int| 0 <= i < v@.len() ==> f.requires((&&#[trigger] v@[i],)) && g.requires((&v@[i],)),
+    ensures
+        fm_kept(v@, r).len() == v@.len() && fm_imgs(v@, r).len() == v@.len(),
+        forall|i: int| #![trigger v@[i]] #![trigger fm_kept(v@, r)[i]] 0 <= i < v@.len() ==> f.ensures((&&v@[i],), fm_kept(v@, r)[i]),
+        forall|i: int| #![trigger v@[i]] #![trigger fm_imgs(v@, r)[i]] 0 <= i < v@.len() && fm_kept(v@, r)[i] ==> g.ensures((&v@[i],), fm_imgs(v@, r)[i]),
+        forall|x: Seq<char>| #[trigger] strset(r).contains(x) <==> (exists|i: int| 0 <= i < v@.len() && #[trigger] fm_kept(v@, r)[i] && fm_imgs(v@, r)[i]@ == x),
+{ unimplemented!() }
+"""
